@@ -45,7 +45,7 @@ func init() {
 								s.Store = append(s.Store, M{"id": hx(s.CredID), "owner": hx(s.UserID), "pk": hx([]byte{0xa0})})
 							case "real-other":
 								s.Get = "real"
-								s.Store = append(s.Store, M{"id": hx(s.CredID), "owner": hx(append(append([]byte{}, s.UserID...), 1)), "pk": hx([]byte{0xa0})})
+								s.Store = append(s.Store, M{"id": hx(s.CredID), "owner": hx(otherOwner(r, s.UserID)), "pk": hx([]byte{0xa0})})
 							default:
 								s.Get = g
 								if r.Bool() {
